@@ -20,7 +20,8 @@ CAP = 3   # max entries per queue while exploring
 
 # event name -> list of (sent name, delay) produced by the handler; names not listed are ignored
 CHARTS = {
-    'flat': {'x': [], 'xs': [('ix', 0)], 'xd': [('iy', 2)], 'ix': [], 'xx': [('ix', 0), ('iy', 1)]},
+    'flat': {'x': [], 'xs': [('ix', 0)], 'xd': [('iy', 2)], 'ix': [], 'xx': [('ix', 0), ('iy', 1)],
+             'xz': [('ix', 0), ('iz', '0!'), ('iw', 0)]},     # '0!' = an explicit delay=0
     'orth': {'x': [], 'xs': [('ix', 0)], 'xd': [('iy', 2)], 'ix': [('iz', 0)]},
     'move': {'x': [('en', 0)], 'xs': [('ix', 1), ('en', 0)], 'ix': [('en', 0)]},
 }
@@ -34,7 +35,7 @@ def build_chart(kind):
     def act(name, sends):
         code = "P('h', %r, event.s)" % name
         for sn, d in sends:
-            code += "; c = c + 1; send(%r, s=c%s)" % (sn, (', delay=%d' % d) if d else '')
+            code += "; c = c + 1; send(%r, s=c%s)" % (sn, ', delay=0' if d == '0!' else (', delay=%d' % d) if d else '')
         return code
     if kind == 'flat':
         sc.add_state(CompoundState('root', initial='a'), None)
@@ -76,7 +77,8 @@ def ops_for(kind):
     if kind != 'move':
         ops += [('q', 'xd', 0)]
     if kind == 'flat':
-        ops += [('q', 'xx', 0)]
+        ops += [('q', 'xx', 0), ('q', 'xz', 0)]
+    ops += [('q', 'x', '0!'), ('qi', 'ix', '0!')]
     return ops
 
 
@@ -103,13 +105,14 @@ class RefQueues:
 
     def queue(self, name, delay, internal=False):
         self.serial += 1
+        delay = 0 if delay == '0!' else delay
         self._put(self.internal if internal else self.external, self.now + delay, self.serial, name)
         return self.serial
 
     def sends(self, lst):
         for name, d in lst:
             self.c += 1
-            self._put(self.internal, self.now + d, self.c, name)
+            self._put(self.internal, self.now + (0 if d == '0!' else d), self.c, name)
 
     def pending(self, t):
         for q in (self.internal, self.external):
@@ -154,11 +157,13 @@ def apply_op(it, ref, op, listener_log):
     k = op[0]
     if k == 'q':
         s = ref.queue(op[1], op[2])
-        ev = Event(op[1], s=s, delay=op[2]) if op[2] else Event(op[1], s=s)
+        ev = Event(op[1], s=s, delay=0) if op[2] == '0!' else (
+            Event(op[1], s=s, delay=op[2]) if op[2] else Event(op[1], s=s))
         it.queue(ev)
     elif k == 'qi':
         s = ref.queue(op[1], op[2], internal=True)
-        ev = InternalEvent(op[1], s=s, delay=op[2]) if op[2] else InternalEvent(op[1], s=s)
+        ev = InternalEvent(op[1], s=s, delay=0) if op[2] == '0!' else (
+            InternalEvent(op[1], s=s, delay=op[2]) if op[2] else InternalEvent(op[1], s=s))
         it.queue(ev)
     elif k == 'clock':
         ref.clock += op[1]
